@@ -8,10 +8,15 @@ A_VALS = [None, -7, -2, -1, 0, 1, 2, 7]
 B_VALS = [None, -2, 0, 1, 3]
 C_VALS = [None, 0.5, -2.5, 2.0]
 ROWS = [(i + 1, a, b, c) for i, (a, b, c) in enumerate(itertools.product(A_VALS, B_VALS, C_VALS))]
-COLS = [("v", "id"), ("v", "a"), ("v", "b"), ("v", "c")]
+COLS = [("v", "id"), ("v", "a"), ("v", "b"), ("v", "c"), (None, "d"), (None, "e")]
+# d and e are columns defined by a preceding derive as NEGATIVE constants: the compiler inlines them, so an
+# expression over them exercises folding and the printing of negative literals under unary and binary operators
+CONSTS = (-2, -1.5)
+PREFIX = "from v | derive {d = (-2), e = (-1.5)} | select {id, r = %s}"
 DB_STMTS = ["CREATE TABLE v (id INTEGER, a INTEGER, b INTEGER, c REAL);" +
             "".join("INSERT INTO v VALUES (%s);" % ", ".join("NULL" if x is None else repr(x) for x in r) for r in ROWS)]
 EXEC_OPS = [o for o in gexpr.BINOPS if o != "~="]
+gexpr.EXTRA_COLS[:] = ["d", "e"]
 
 
 def struct(e):
@@ -104,7 +109,7 @@ def judge_parse(w, e, mode):
 def judge_value(w, e, dialect, mode="min"):
     """emitted SQL value == value of the tree, for every row of the domain table."""
     text = gexpr.pp(e, mode)
-    r = w.call({"op": "compile", "src": "from v | select {id, r = %s}" % text, "target": "sql." + dialect, "db": "v"})
+    r = w.call({"op": "compile", "src": PREFIX % text, "target": "sql." + dialect, "db": "v"})
     if "sql" not in r:
         if "panic" in r:
             return ("compile_panic", core.panic_sig(r["panic"])), 0, 0
@@ -121,7 +126,7 @@ def judge_value(w, e, dialect, mode="min"):
     judged = unspec = 0
     for row in ROWS:
         try:
-            want = model.ev(e, model.Env(COLS, row))
+            want = model.ev(e, model.Env(COLS, tuple(row) + CONSTS))
         except model.Unspecified:
             unspec += 1
             continue
@@ -200,6 +205,13 @@ def trees(tier, seed):
                 (["bin", op, A, ["bin", op, ["lit", 3], ["lit", 2]]], "fold"), (["bin", op, ["bin", op, ["lit", 3], ["lit", 2]], A], "fold"),
                 (["bin", op, ["lit", 0], A], "fold"), (["bin", op, A, ["lit", 0]], "fold"), (["bin", op, ["lit", 1], A], "fold"), (["bin", op, A, ["lit", 1]], "fold"),
                 (["bin", op, NULL, A], "fold"), (["bin", op, A, NULL], "fold"), (["bin", op, ["lit", True], A], "fold"), (["bin", op, A, ["lit", False]], "fold")]
+    D, E = ["col", None, "d"], ["col", None, "e"]
+    for x in (D, E):
+        out += [(["neg", x], "const"), (["neg", ["neg", x]], "const"), (["bin", "-", A, x], "const"), (["bin", "-", A, ["neg", x]], "const"), (["bin", "-", x, x], "const"),
+                (["bin", "*", ["neg", x], B], "const"), (["bin", "**", x, ["lit", 2]], "const"), (["bin", "-", ["lit", 0], x], "const"), (["bin", "+", ["neg", x], ["neg", x]], "const"),
+                (["not", ["bin", "<", x, ["lit", 0]]], "const"), (["bin", "/", A, x], "const"), (["bin", "%", A, x], "const"), (["bin", "//", A, x], "const")]
+        for op in gexpr.ARITH:
+            out += [(["bin", op, A, ["neg", x]], "const"), (["bin", op, ["neg", x], A], "const"), (["neg", ["bin", op, x, A]], "const")]
     out += [(["case", [[["bin", ">", A, ["lit", 0]], B], [["lit", True], C]]], "case"),
             (["case", [[["lit", False], A], [["lit", True], B]]], "case"), (["case", [[["lit", True], A], [["bin", ">", B, ["lit", 0]], B]]], "case"),
             (["case", [[["bin", "==", A, NULL], ["lit", 1]], [["bin", ">", A, ["lit", 0]], ["lit", 2]]]], "case"),
